@@ -27,6 +27,7 @@ class Body:
         self.name = name
         self.sig = sig
         self.types = {}   # local -> type string
+        self.debug = {}   # source name -> local
         self.blocks = {}  # bb id -> (stmts, terminator, cleanup)
 
 
@@ -52,6 +53,10 @@ def parse_mir(text):
         m = re.match(r"^\s+let (?:mut )?(_\d+): (.*);$", line)
         if m:
             cur.types[m.group(1)] = m.group(2)
+            continue
+        m = re.match(r"^\s+debug (\w+) => (_\d+);$", line)
+        if m:
+            cur.debug[m.group(1)] = m.group(2)
             continue
         m = re.match(r"^\s+(bb\d+)( \(cleanup\))?: \{$", line)
         if m:
@@ -203,9 +208,10 @@ def endpoints_in_type(t):
 
 
 class Extractor:
-    def __init__(self, bodies, queue_len):
+    def __init__(self, bodies, queue_len, n_threads=1):
         self.b = bodies
         self.QL = queue_len
+        self.NTHR = n_threads
         names = list(bodies)
 
         def find(suffix):
@@ -312,6 +318,11 @@ class Extractor:
             pl = s[5:] if s.startswith("&mut ") else s[1:]
             base, proj, _ = strip_type(pl)
             if not proj:
+                cur = env.get(base)
+                if cur is not None and cur[0] in ("I", "B"):
+                    # reference to a plain number (e.g. &queue_len captured by a closure): the value
+                    # itself, so that it can be read from another frame
+                    return ("REF", cur)
                 return ("REF", ("LOCAL", base))
             return ("REF", self.read_place(env, pl))
         return self.read_place(env, s)
@@ -329,6 +340,12 @@ class Extractor:
 
     def rvalue(self, fn, env, rhs):
         rhs = rhs.strip()
+        m = re.match(r"^(Add|Sub|Mul)\((.*)\)$", rhs)
+        if m:
+            a, b = [self.operand(env, x) for x in split_top(m.group(2))]
+            if a[0] == "I" and b[0] == "I":
+                return ("I", {"Add": a[1] + b[1], "Sub": a[1] - b[1], "Mul": a[1] * b[1]}[m.group(1)])
+            raise Unrecognised("arithmetic on an untracked value in %s: %s" % (fn, rhs))
         m = re.match(r"^discriminant\((.*)\)$", rhs)
         if m:
             v = self.read_place(env, m.group(1))
@@ -357,8 +374,9 @@ class Extractor:
             a, b = self.operand(env, m.group(1)), self.operand(env, m.group(2))
             if a[0] != "I":
                 raise Unrecognised("range start")
-            end = b[1] if b[0] == "I" else "QL"
-            return ("RANGE", a[1], end)
+            if b[0] != "I":
+                raise Unrecognised("range end is not a tracked integer in %s: %s" % (fn, rhs))
+            return ("RANGE", a[1], b[1])
         m = re.match(r"^(?:std::result::)?Result::<.*?>::(Ok|Err)\((.*)\)$", rhs)
         if m:
             return V(m.group(1), self.operand(env, m.group(2)))
@@ -433,6 +451,7 @@ class Automaton:
         self.init = None
         self.spawned = None      # closure value passed to spawn (main role)
         self.job_closure = None  # closure value passed to execute (reader role)
+        self.pool_size = None
         self.regs = set()
 
     def sid(self, key):
@@ -654,7 +673,10 @@ def successors(ex, A, stack, kmax):
     c = callee
     if re.match(r"^std::sync::mpsc::sync_channel::<", c):
         ch = chan_of("Receiver::<" + c.split("sync_channel::<", 1)[1])
-        return [ret(("TUP", (("EP", "s" + ch), ("EP", "r" + ch))), ("chan", ch))]
+        cap = ex.operand(env, args[0])
+        if cap[0] != "I":
+            raise Unrecognised("capacity of a channel is not a tracked integer")
+        return [ret(("TUP", (("EP", "s" + ch), ("EP", "r" + ch))), ("chan", ch, cap[1]))]
     if c.startswith("crossbeam_utils::thread::scope::<"):
         clo = ex.operand(env, args[0])
         if clo[0] != "CLOS" or ex.closure_fn.get(clo[1]) != ex.F_scope:
@@ -719,7 +741,7 @@ def successors(ex, A, stack, kmax):
         rng = env.get(var)
         if not rng or rng[0] != "RANGE":
             raise Unrecognised("Range::next on an untracked range")
-        end = ex.QL if rng[2] == "QL" else rng[2]
+        end = rng[2]
         e2 = dict(env)
         if rng[1] < end:
             e2[var] = ("RANGE", rng[1] + 1, rng[2])
@@ -815,6 +837,10 @@ def successors(ex, A, stack, kmax):
         r = newreg("prev")
         return [ret(("TOK", r), ("replace_cur", s[1], r))]
     if re.match(r"^(?:scoped_threadpool::)?Pool::new$", c):
+        n = ex.operand(env, args[0])
+        if n[0] != "I":
+            raise Unrecognised("size of the thread pool is not a tracked integer")
+        A.pool_size = n[1]
         return [ret(OPQ)]
     if re.match(r"^(?:scoped_threadpool::)?Pool::scoped::<", c):
         clo = ex.operand(env, args[1])
@@ -895,10 +921,15 @@ def consumer_succ(ex, A, stack, kmax):
     raise Unrecognised("consumer state")
 
 
-def extract(mir_text, queue_len, kmax):
+def extract(mir_text, queue_len, kmax, n_threads=1):
     bodies = parse_mir(mir_text)
-    ex = Extractor(bodies, queue_len)
-    main = build_role(ex, "main", [(ex.F_main, "bb0", {}, None)], kmax)
+    ex = Extractor(bodies, queue_len, n_threads)
+    # the two numeric parameters of read_parallel_init are concrete per configuration
+    dbg = bodies[ex.F_main].debug
+    if "queue_len" not in dbg or "n_threads" not in dbg:
+        raise Unrecognised("parameters queue_len / n_threads of read_parallel_init not found")
+    env0 = {dbg["queue_len"]: ("I", queue_len), dbg["n_threads"]: ("I", n_threads)}
+    main = build_role(ex, "main", [(ex.F_main, "bb0", env0, None)], kmax)
     if main.spawned is None:
         raise Unrecognised("no reader thread is spawned")
     reader = build_role(ex, "reader", [(ex.F_reader, "bb0", {"_1": main.spawned, "_2": OPQ}, None)], kmax)
@@ -913,7 +944,7 @@ def extract(mir_text, queue_len, kmax):
 
 if __name__ == "__main__":
     txt = open(sys.argv[1]).read()
-    ex, main, reader, job = extract(txt, int(sys.argv[2]) if len(sys.argv) > 2 else 2, 2)
+    ex, main, reader, job = extract(txt, int(sys.argv[2]) if len(sys.argv) > 2 else 2, 2, 2)
     for A in (main, reader, job):
         print("== %s: %d states, %d edges, init %d" % (A.role, A.n, len(A.edges), A.init))
         for s, l, d in A.edges:
